@@ -47,19 +47,52 @@ def l5(ctx: Ctx):
     rc = [c for c in ast.walk(fl) if isinstance(c, ast.Call) and call_name(c) == rec.name]
     okr = len(rc) == 1 and len(rc[0].args) == 2 and unparse(rc[0].args[0]) == unparse(fl.target) and unparse(rc[0].args[1]) == deps
     ctx.ob("closure:recurses-every-callee", okr, "" if okr else "the closure does not recurse into every callee with the same accumulator", file=PROCBANK_REL, line=fl.lineno)
-    # get_procedure_and_dependencies
-    src = unparse(get)
+    # get_procedure_and_dependencies (and the helpers it calls): structural slots, not a frozen fragment
     pname = get.args.args[1].arg
-    ok1 = re.search(rf"(\w+)\.remove\({pname}\)", src) is not None
-    ok2 = re.search(rf"sorted\((\w+)\) \+ \[{pname}\]", src) is not None
-    ctx.ob("result:sorted+root-last", ok1 and ok2, "" if ok1 and ok2 else "the result is no longer `sorted(closure - {root}) + [root]`: procedures are not in alphabetical order / the program is not last / appears twice", file=PROCBANK_REL, line=get.lineno)
-    ok3 = re.search(r"for (\w+) in (\w+)\s+if \1 in self\._name_to_procedure", src.replace("\n", " ")) is not None
+    scope = [get] + [m_ for n_, m_ in ci.methods.items() if m_ is not get and any(isinstance(c, ast.Attribute) and c.attr == n_ and isinstance(c.value, ast.Name) and c.value.id == "self" for c in ast.walk(get)) and n_ not in ("_get_procedure_and_dependency_names", "_add_procedure_dependencies")]
+    walk_scope = [n for f_ in scope for n in ast.walk(f_)]
+    sorts = [c for c in walk_scope if isinstance(c, ast.Call) and call_name(c) == "sorted" and c.args]
+    removed = any(
+        (isinstance(c, ast.Call) and isinstance(c.func, ast.Attribute) and c.func.attr in ("remove", "discard") and c.args and unparse(c.args[0]) == pname)
+        or (isinstance(c, ast.BinOp) and isinstance(c.op, ast.Sub) and isinstance(c.right, ast.Set) and [unparse(e) for e in c.right.elts] == [pname])
+        or (isinstance(c, ast.Call) and isinstance(c.func, ast.Attribute) and c.func.attr == "difference" and c.args and pname in unparse(c.args[0]))
+        for c in walk_scope
+    )
+    appended = any(
+        (isinstance(c, ast.BinOp) and isinstance(c.op, ast.Add) and isinstance(c.right, ast.List) and [unparse(e) for e in c.right.elts] == [pname])
+        or (isinstance(c, ast.Call) and isinstance(c.func, ast.Attribute) and c.func.attr == "append" and c.args and unparse(c.args[0]) == pname)
+        for c in walk_scope
+    )
+    # what is sorted are the *names* (a name, or names minus the root) - not the procedure texts
+    names_sorted = bool(sorts) and all(isinstance(c.args[0], (ast.Name, ast.BinOp)) or (isinstance(c.args[0], ast.Call) and isinstance(c.args[0].func, ast.Attribute) and c.args[0].func.attr in ("difference", "copy")) for c in sorts) and not any(k.arg == "key" for c in sorts for k in c.keywords)
+    ok12 = names_sorted and removed and appended
+    ctx.idiom(
+        "result:sorted+root-last",
+        bool(sorts) or removed or appended,
+        ok12,
+        "" if ok12 else f"the result is no longer `sorted(closure - {{root}}) + [root]` (names sorted: {names_sorted}, root taken out: {removed}, root appended last: {appended}): procedures are not in alphabetical order / the program is not last / appears twice",
+        file=PROCBANK_REL,
+        line=get.lineno,
+    )
+    ok3 = any(isinstance(c, ast.Compare) and len(c.ops) == 1 and isinstance(c.ops[0], (ast.In, ast.NotIn)) and unparse(c.comparators[0]) == "self._name_to_procedure" for c in walk_scope)
     ctx.ob("result:present-only", ok3, "" if ok3 else "names without a stored procedure (system modules) are no longer filtered out", file=PROCBANK_REL, line=get.lineno)
-    subs = [c for c in ast.walk(get) if isinstance(c, ast.Call) and call_name(c) == "sub"]
-    oks = len(subs) == 1 and unparse(subs[0].args[0]) == "STR_STORAGE_TAG"
-    ctx.ob("result:one-substitution", oks, "" if oks else "the string-size placeholder is not substituted by exactly one re.sub(STR_STORAGE_TAG, ...)", file=PROCBANK_REL, line=get.lineno)
-    okt = re.search(r"': STRING' \+ \(\s*'' if self\._default_str_storage == b09\.DEFAULT_STR_STORAGE else f'\[\{self\._default_str_storage\}\]'\s*\)", src) is not None
-    ctx.ob("result:replacement-text", okt, "" if okt else "the replacement is no longer `: STRING` / `: STRING[n]` depending on the requested size", file=PROCBANK_REL, line=get.lineno)
+    subs = [c for c in walk_scope if isinstance(c, ast.Call) and isinstance(c.func, ast.Attribute) and c.func.attr == "sub"]
+    tagged = [c for c in subs if (unparse(c.func.value) == "re" and c.args and unparse(c.args[0]) == "STR_STORAGE_TAG") or unparse(c.func.value) == "STR_STORAGE_TAG"]
+    oks = len(subs) == 1 and len(tagged) == 1
+    ctx.idiom("result:one-substitution", bool(subs), oks, "" if oks else "the string-size placeholder is not substituted by exactly one substitution of STR_STORAGE_TAG", file=PROCBANK_REL, line=get.lineno)
+    cmps = [c for c in walk_scope if isinstance(c, ast.Compare) and len(c.ops) == 1 and {unparse(c.left), unparse(c.comparators[0])} == {"self._default_str_storage", "b09.DEFAULT_STR_STORAGE"}]
+    consts = [c.value for c in walk_scope if isinstance(c, ast.Constant) and isinstance(c.value, str)]
+    has_plain = any(x.strip() == ": STRING" for x in consts) or any(x.startswith(": STRING") for x in consts)
+    has_sized = any(isinstance(c, ast.JoinedStr) and "[" in "".join(str(v.value) for v in c.values if isinstance(v, ast.Constant)) and any(isinstance(v, ast.FormattedValue) and unparse(v.value) == "self._default_str_storage" for v in c.values) for c in walk_scope)
+    okt = len(cmps) == 1 and isinstance(cmps[0].ops[0], (ast.Eq, ast.NotEq)) and has_plain and has_sized
+    ctx.idiom(
+        "result:replacement-text",
+        bool(cmps),
+        okt,
+        "" if okt else f"the replacement is no longer `: STRING` when the requested size equals BASIC09's default and `: STRING[n]` otherwise (test: `{unparse(cmps[0]) if cmps else None}`, plain text: {has_plain}, sized text: {has_sized}): sizes that merely compare smaller / larger get the wrong declaration",
+        file=PROCBANK_REL,
+        line=get.lineno,
+    )
     # add_from_str: header starts a new procedure; every line is kept; dependencies recorded under the current name
     asrc = unparse(add)
     loops = [n for n in ast.walk(add) if isinstance(n, ast.For)]
@@ -70,24 +103,49 @@ def l5(ctx: Ctx):
             if ast_contains(lp, f"PROCEDURE_START_PREFIX.match({lv})") and ast_contains(lp, f"INVOKED_PROCEDURE_NAMES.findall({lv})"):
                 ok4 = True
     ctx.ob("load:patterns", ok4, "" if ok4 else "add_from_str no longer uses the header / RUN patterns line by line", file=PROCBANK_REL, line=add.lineno)
-    # the text is cut into lines at line terminators only: any other character may occur inside a string literal
+    # the text is cut into lines at line terminators only: any other character may occur inside a string literal.
+    # Decided on the *language* of whatever pattern does the cutting (inline or a module-level compiled constant).
+    from .peg import fold_module
+
+    env_pb = fold_module(ctx, PROCBANK_REL)
     loops = [n for n in ast.walk(add) if isinstance(n, ast.For)]
-    split_ok = False
+    split_ok: Optional[bool] = None
     split_txt = ""
+    crlf = Lang.from_regex(r"[\r\n]+")
     for lp in loops:
         it = lp.iter
+        if not (isinstance(it, ast.Call) and isinstance(it.func, ast.Attribute)):
+            continue
         split_txt = unparse(it)
-        if isinstance(it, ast.Call) and call_name(it) == "split" and isinstance(it.func, ast.Attribute) and unparse(it.func.value) == "re" and it.args and isinstance(it.args[0], ast.Constant):
-            cls_ = it.args[0].value
-            mm = re.fullmatch(r"\[((?:\\[rn])+)\]|\\r\?\\n|\\n", cls_)
-            split_ok = mm is not None
-            break
-        if isinstance(it, ast.Call) and call_name(it) == "split" and it.args and isinstance(it.args[0], ast.Constant) and it.args[0].value in ("\n", "\r", "\r\n"):
+        pat = None
+        if it.func.attr == "split" and unparse(it.func.value) == "re" and it.args and isinstance(it.args[0], ast.Constant) and isinstance(it.args[0].value, str):
+            pat = it.args[0].value
+        elif it.func.attr == "split" and isinstance(it.func.value, ast.Name) and isinstance(env_pb.get(it.func.value.id), RegexConst):
+            pat = env_pb[it.func.value.id].pattern
+        elif it.func.attr == "split" and it.args and isinstance(it.args[0], ast.Constant) and it.args[0].value in ("\n", "\r", "\r\n"):
             split_ok = True
             break
-    ctx.ob("load:line-split", split_ok, "" if split_ok else f"add_from_str cuts the text with `{split_txt}`, which also breaks at characters other than CR/LF (form feed, U+2028 ...) that a user's string literal may contain: the literal is cut in two, quotes become unbalanced and a RUN on that line is missed", file=PROCBANK_REL, line=add.lineno, witness="" if split_ok else '10 PLAY "CDE\x0cFG"', props=["C13", "C11"])
-    ok5 = ast_contains(add, "self._name_to_dependencies[$n].update($x)") and ast_contains(add, "$x = INVOKED_PROCEDURE_NAMES.findall($l)") and ast_contains(add, "$n = $m[1]")
-    ctx.ob("load:records-callees", ok5, "" if ok5 else "callees are not recorded under the procedure being read", file=PROCBANK_REL, line=add.lineno)
+        elif it.func.attr == "splitlines":
+            split_ok = False
+            break
+        if pat is not None:
+            try:
+                split_ok = Lang.from_regex(pat).included_in(crlf)[0]
+            except Exception:
+                split_ok = None
+            break
+    ctx.idiom("load:line-split", split_ok is not None, bool(split_ok), "" if split_ok else f"add_from_str cuts the text with `{split_txt}`, which also breaks at characters other than CR/LF (form feed, U+2028 ...) that a user's string literal may contain: the literal is cut in two, quotes become unbalanced and a RUN on that line is missed", file=PROCBANK_REL, line=add.lineno, witness="" if split_ok else '10 PLAY "CDE\x0cFG"', props=["C13", "C11"])
+    from .pyast import resolve_alias
+
+    upd = [c for c in ast.walk(add) if isinstance(c, ast.Call) and isinstance(c.func, ast.Attribute) and c.func.attr == "update" and isinstance(c.func.value, ast.Subscript) and unparse(c.func.value.value) == "self._name_to_dependencies" and c.args]
+    ok5 = False
+    if upd:
+        arg = resolve_alias(add, upd[0].args[0])
+        key = resolve_alias(add, upd[0].func.value.slice)
+        from_run_pattern = isinstance(arg, ast.Call) and isinstance(arg.func, ast.Attribute) and arg.func.attr == "findall" and unparse(arg.func.value) == "INVOKED_PROCEDURE_NAMES"
+        from_header = (isinstance(key, ast.Subscript) and isinstance(key.slice, ast.Constant) and key.slice.value == 1) or (isinstance(key, ast.Call) and isinstance(key.func, ast.Attribute) and key.func.attr == "group" and key.args and isinstance(key.args[0], ast.Constant) and key.args[0].value == 1)
+        ok5 = from_run_pattern and from_header
+    ctx.idiom("load:records-callees", bool(upd), ok5, "" if ok5 else "callees are not recorded under the procedure being read", file=PROCBANK_REL, line=add.lineno)
     # convert(): library first, then the program, then the closure of the program's own name
     P = pipeline(ctx)
     csrc = unparse(P.fn)
